@@ -9,6 +9,7 @@ import (
 	"os"
 	"path/filepath"
 	"runtime"
+	"strconv"
 	"strings"
 	"sync"
 	"syscall"
@@ -350,6 +351,66 @@ func c12CtrMain(args []string) error {
 							x.File.Close()
 						}
 					}
+				}
+				s.close()
+				return nil
+			}
+			if err := one(); err != nil {
+				o.Setup = err.Error()
+				break
+			}
+			time.Sleep(50 * time.Millisecond)
+			o.Base = sample(nil)
+			for rep := 0; rep < c.Reps; rep++ {
+				if err := one(); err != nil {
+					o.Setup = err.Error()
+					break
+				}
+			}
+			o.End = settle(nil, o.Base)
+		case "fdtight":
+			// a reply carries more descriptors than the host has free slots for (RLIMIT_NOFILE): the kernel
+			// installs some and truncates the rest; the call fails -- and nothing of it may stay open
+			one := func() error {
+				s, err := newSession(args[0], sessOpt{})
+				if err != nil {
+					return err
+				}
+				var old syscall.Rlimit
+				syscall.Getrlimit(syscall.RLIMIT_NOFILE, &old)
+				ents, _ := os.ReadDir("/proc/self/fd")
+				maxfd := 0
+				for _, e := range ents {
+					if n, err := strconv.Atoi(e.Name()); err == nil && n > maxfd {
+						maxfd = n
+					}
+				}
+				// fill the holes below the highest descriptor so that exactly three slots are free
+				var fill []int
+				syscall.Setrlimit(syscall.RLIMIT_NOFILE, &syscall.Rlimit{Cur: uint64(maxfd + 1), Max: old.Max})
+				for {
+					fd, err := syscall.Dup(0)
+					if err != nil {
+						break
+					}
+					fill = append(fill, fd)
+				}
+				syscall.Setrlimit(syscall.RLIMIT_NOFILE, &syscall.Rlimit{Cur: uint64(maxfd + 4), Max: old.Max})
+				var cmds []container.OpenCmd
+				for j := 0; j < 8; j++ {
+					cmds = append(cmds, container.OpenCmd{Path: fmt.Sprintf("/w/t%d", j), Flag: os.O_CREATE | os.O_WRONLY, Perm: 0644})
+				}
+				res, err := s.env.Open(cmds)
+				if err == nil {
+					for _, x := range res {
+						if x.File != nil {
+							x.File.Close()
+						}
+					}
+				}
+				syscall.Setrlimit(syscall.RLIMIT_NOFILE, &old)
+				for _, fd := range fill {
+					syscall.Close(fd)
 				}
 				s.close()
 				return nil
